@@ -93,6 +93,12 @@ def clone(n):
 _IL_CACHE = {}
 
 
+def _pure_method(call):
+    """Read-only container methods whose result may stand in for the temporary that holds it."""
+    return isinstance(call.func, ast.Attribute) and call.func.attr in ("get", "lower", "upper", "bit_length", "keys", "values", "items") and \
+        dotted(call.func.value) is not None
+
+
 def inline_locals(fnode, expr, depth=3):
     """Copy of `expr` in which local names that have exactly one plain assignment in `fnode` (and are never augmented,
     deleted, used as loop/with targets or parameters) are replaced by their (recursively inlined) value.  Makes
@@ -149,7 +155,7 @@ def inline_locals(fnode, expr, depth=3):
                 v = clone(single[node.id])
                 # do not inline calls (they may have effects / fresh values) except pure path/arith helpers
                 if any(isinstance(x, (ast.Await, ast.Yield)) for x in ast.walk(v)) or any(
-                        isinstance(x, ast.Call) and dotted(x.func) not in pure for x in ast.walk(v)):
+                        isinstance(x, ast.Call) and dotted(x.func) not in pure and not _pure_method(x) for x in ast.walk(v)):
                     return node
                 return T(self.d - 1).visit(v)
             return node
